@@ -16,6 +16,7 @@ import (
 	"strings"
 	"time"
 
+	"github.com/anishathalye/porcupine"
 	"github.com/jig/lisp"
 	"github.com/jig/lisp/simhook"
 	"github.com/jig/lisp/types"
@@ -59,6 +60,80 @@ var c10OpKinds = []string{"deref", "done?", "cancelled?", "cancel", "deref-deadl
 var c10OpW = []int{5, 4, 3, 2, 3, 1}
 
 func futName(i int) string { return "f" + strconv.Itoa(i) }
+
+// ---- sequential specification of one future's status, for porcupine ----
+//
+// phase: 0 running, 1 completed (never cancelled), 2 cancelled while running, 3 cancelled and the body has
+// finished since. "complete" is the internal event "the body finished evaluating", an operation whose
+// interval runs from the body's return to the end of the body's thread. Only what the statement fixes is
+// enforced: a deref returns the outcome only once the body has finished; future-done? may lag behind
+// completion until some deref has returned the outcome, never the other way round; future-cancel returns
+// true exactly when it takes effect on a running future (on an already cancelled one either answer passes)
+// and false on a completed, uncancelled one; future-cancelled? tells whether a cancel took effect.
+type futState struct {
+	phase     int
+	derefSeen bool
+}
+
+type futIn struct{ Kind string }
+
+var futModel = porcupine.Model{
+	Init: func() interface{} { return futState{} },
+	Step: func(state, input, output interface{}) (bool, interface{}) {
+		st := state.(futState)
+		in := input.(futIn)
+		out := output.(string)
+		switch in.Kind {
+		case "complete":
+			switch st.phase {
+			case 0:
+				st.phase = 1
+			case 2:
+				st.phase = 3
+			default:
+				return false, st
+			}
+			return true, st
+		case "deref":
+			if out == "own-timeout" {
+				return true, st
+			}
+			if st.phase == 1 || st.phase == 3 {
+				st.derefSeen = true
+				return true, st
+			}
+			return false, st
+		case "done?":
+			if out == "true" {
+				return st.phase != 0, st
+			}
+			return st.phase == 0 || !st.derefSeen, st
+		case "cancelled?":
+			if out == "true" {
+				return st.phase >= 2, st
+			}
+			return st.phase < 2, st
+		case "cancel":
+			switch st.phase {
+			case 0:
+				if out == "true" {
+					st.phase = 2
+					return true, st
+				}
+				return false, st
+			case 1:
+				return out == "false", st
+			default:
+				return true, st
+			}
+		}
+		return false, st
+	},
+	Equal: func(a, b interface{}) bool { return a.(futState) == b.(futState) },
+	DescribeOperation: func(input, output interface{}) string {
+		return input.(futIn).Kind + " -> " + output.(string)
+	},
+}
 
 type c10World struct {
 	s       *Sim
@@ -582,6 +657,52 @@ func (c10) Run(tp *Tape, opt RunOpt) *RunOut {
 			for _, d := range derefs {
 				if d.isErr && !d.ctxEnded && strings.Contains(d.res, "dereferencing") && !cancellable {
 					viol("O3-deref-error", "timeout-without-ended-context", "deref returned a timeout although its context had not ended: "+line(d))
+				}
+			}
+			// the whole status history against the sequential specification (subsumes O3-O6 and is complete
+			// where those are pattern by pattern)
+			if bodyRet[i] != 0 && bodyEnd[i] != 0 {
+				isOutcomeRec := map[*rec]bool{}
+				for _, d := range outcomes {
+					isOutcomeRec[d] = true
+				}
+				pops := []porcupine.Operation{{ClientId: 0, Input: futIn{"complete"}, Call: int64(bodyRet[i]), Output: "", Return: int64(bodyEnd[i])}}
+				var hist []string
+				hist = append(hist, "["+strconv.FormatUint(bodyRet[i], 10)+","+strconv.FormatUint(bodyEnd[i], 10)+"] (the body finishes evaluating)")
+				for k, r := range order {
+					if r.op.Fut != i || !r.done {
+						continue
+					}
+					var in futIn
+					outS := r.res
+					switch r.op.Kind {
+					case "deref":
+						in = futIn{"deref"}
+						if isOutcomeRec[r] {
+							outS = "outcome"
+						} else {
+							outS = "own-timeout"
+						}
+					case "done?", "cancelled?", "cancel":
+						in = futIn{r.op.Kind}
+						if r.isErr {
+							continue
+						}
+					default:
+						continue
+					}
+					pops = append(pops, porcupine.Operation{ClientId: k + 1, Input: in, Call: int64(r.inv), Output: outS, Return: int64(r.ret)})
+					hist = append(hist, line(r))
+				}
+				if len(pops) <= 40 {
+					switch porcupine.CheckOperationsTimeout(futModel, pops, 10*time.Second) {
+					case porcupine.Ok:
+						out.Stats["porcupine_ok"]++
+					case porcupine.Unknown:
+						out.Stats["porcupine_unknown"]++
+					case porcupine.Illegal:
+						viol("status-linearizability", "status-history-not-linearizable", "the status history of "+fn+" fits no order of events consistent with real time:\n  "+strings.Join(hist, "\n  "))
+					}
 				}
 			}
 		}
